@@ -6,10 +6,12 @@ sys.path.insert(0, os.path.join(os.path.dirname(__file__), '..', 'lib'))
 import std
 import vlib
 
-WIRE = ['theories/Wire/Cbor.v', 'theories/Wire/CborFloat.v', 'theories/Wire/CborProofs.v', 'theories/Wire/CborDepth.v', 'theories/Wire/CborTotal.v',
+WIRE = ['theories/Wire/Cbor.v', 'theories/Wire/CborFloat.v', 'theories/Wire/CborProofs.v', 'theories/Wire/CborDepth.v', 'theories/Wire/CborDepthFull.v', 'theories/Wire/CborTotal.v',
         'theories/Wire/Msgpack.v', 'theories/Wire/MsgpackProofs.v',
-        'theories/Wire/Simple.v', 'theories/Wire/SimpleProofs.v', 'theories/Wire/SimpleTotal.v', 'theories/Wire/SimpleDepth.v', 'theories/Wire/SimpleSkip.v',
+        'theories/Wire/Simple.v', 'theories/Wire/SimpleProofs.v', 'theories/Wire/SimpleTotal.v', 'theories/Wire/SimpleDepth.v', 'theories/Wire/SimpleDepthFull.v', 'theories/Wire/SimpleSkip.v',
         'theories/Wire/Binc.v', 'theories/Wire/BincProofs.v',
+        'theories/Wire/Json.v', 'theories/Wire/JsonProofs.v', 'theories/Wire/JsonRT.v', 'theories/Wire/JsonDepth.v',
+        'theories/C09/Spec.v', 'theories/C09/Model.v',
         'theories/Wire/Item.v', 'theories/Base/Outcome.v', 'theories/Gen/Consts.v', 'theories/Gen/Leaf.v']
 
 SPEC = {
@@ -27,7 +29,7 @@ SPEC = {
     'assumptions': [
         'recursion is counted in model frames: one per nested value on the interface{} path (DecodeNaked/kInterfaceNaked), one per nested container in the skip walker (nextValueBytesBdReadR), one per decodeValue call in the typed model; the Go frames per model frame are a constant (reflection + fast-path dispatch), the bytes of stack per frame are a property of the compiler and runtime and are only observed (64 MB cap in the deep stream)',
         'the implementation refuses nesting at depth == MaxDepth (depthIncr: d.depth >= d.maxdepth), i.e. MaxDepth = n admits n-1 nested containers; the oracle and the theorems use exactly this boundary (levels >= MaxDepth => error, levels < MaxDepth => no depth error)',
-        'the wire models (hand written, tied by their own checks Wcbor/Wmsgpack/Wsimple/Wbinc and here by Coq cases on the interface{} / Raw / unknown-field paths) cover []byte input; the io.Reader transport, the typed path on real reflection, extension values and json are covered by the harness oracle only',
+        'the wire models (hand written, tied by their own checks Wcbor/Wmsgpack/Wsimple/Wbinc/Wjson and here, for the four binary formats, by Coq cases on the interface{} / Raw / unknown-field paths) cover []byte input; the io.Reader transport, the typed path on real reflection and extension values are covered by the harness oracle only; the json theorems are over Wire/Json.v, whose correspondence is run by the check Wjson (this check runs json through the harness oracle only)',
         'json: nextValueBytes is an iterative scanner without depth accounting: a skipped or Raw-captured json value nested beyond MaxDepth is accepted (no recursion, no stack growth); the oracle exempts exactly this path from "error beyond MaxDepth"',
         're-entrant decoding (a hand-written Selfer whose CodecDecodeSelf calls d.MustDecode / d.Decode for its children; extensions) is not in C14/Typed.v (no custom-codec frames): the depth counter surviving re-entry is checked by the harness oracle only (paths selfer-reentry, selfer-reentry-e, ext-iface, ext-self)', 'typed path: C14/Typed.v is a model of decodeValue over destination type trees (depthIncr in arrayStart/mapStart, none in kPtr, kInterface -> naked); it is not tied by Coq cases, only by the harness oracle on T{A []T; M map[string]T; P *T} and [][]...[]int',
     ],
@@ -43,6 +45,6 @@ def main(chk):
 MANIFEST = {
     'category': 'proof',
     'technique': 'Coq: per format the recursion counter of the decode-into-interface{} model and of the skip/raw walker model is bounded by MaxDepth for every byte list, option vector and fuel (assembled by exact from the wire-layer lemmas), nesting to MaxDepth or beyond is an error; a model of the typed path (destination types as trees) with its own bound; vm_compute correspondence of the wire models on nested inputs around MaxDepth; API-level oracle on all five formats, sixteen paths, every nesting unit, with 10^6-level inputs, 6*10^6-unit runs of non-nesting tags, sentinel-length heads and 3*10^6-element inputs without nesting in 64 MB-stack subprocesses',
-    'text': 'PARTIAL. Proved (unbounded in input, options, fuel): C14_cbor/msgpack/simple/binc_bound (model recursion frames <= MaxDepth on the interface{} path and in the skip walker), C14_*_error (nesting >= MaxDepth => Err, never Ok), C14_typed_bound (typed path: frames <= 2*MaxDepth + static pointer/struct nesting of the destination type). What the model decides is the recursion DEPTH; bytes of stack per frame, stack growth and the fatal exit are runtime and only observed by the harness (64 MB stack cap, 10^6..3*10^6 levels on every path incl. io.Reader, typed destinations, Raw, unknown fields, extension values). json is covered by the harness only (its wire model is being written); its skip walker is iterative.',
+    'text': 'PARTIAL. Proved (unbounded in input, options, fuel): C14_cbor/msgpack/simple/binc/json_bound (model recursion frames <= MaxDepth on the interface{} path and in the skip walker; json: for every leaf implementation, the skip scanner is one loop), C14_cbor/msgpack/simple/binc/json_error (FULL for all five formats: for every input, option vector and fuel the decode-into-interface{} model never returns a value nested MaxDepth levels or more; depth counts arrays, maps and the cbor tags the decoder keeps, skipped tags cost nothing), C14_json_refuse (a container met with MaxDepth-1 open is the depth error), C14_cbor_error_partial / C14_simple_error_partial (older statements over nest families / encoder outputs that also name the error class), C14_typed_bound (typed path: frames <= 2*MaxDepth + static pointer/struct nesting of the destination type), C14_typed_error_partial (one family). What the model decides is the recursion DEPTH; bytes of stack per frame, stack growth and the fatal exit are runtime and only observed by the harness (64 MB stack cap, 10^6..3*10^6 levels on every path incl. io.Reader, typed destinations, Raw, unknown fields, extension values). json: the wire model Wire/Json.v (tied by the check Wjson) carries the theorems; its skip walker is iterative and enforces no depth (exempted in the oracle).',
     'note': 'Findings made by this check and repaired in /repo: F14-4 (cbor tag bound to an InterfaceExt recursed without depth accounting), F14-5 (SelfExt payloads decoded by side decoders that restarted the depth count). The boundary is depth == MaxDepth => error (MaxDepth=1 admits no container). Trusted: Coq kernel, the hand-written wire and typed models, the harness.',
 }
